@@ -392,6 +392,7 @@ public:
     g["type"] = X.typeStr(v->getType());
     g["ctype"] = v->getType().getCanonicalType().getAsString();
     g["static"] = (v->getStorageClass() == SC_Static);
+    g["tls"] = (v->getTLSKind() != VarDecl::TLS_None);
     g["def"] = (v->isThisDeclarationADefinition() != VarDecl::DeclarationOnly);
     g["loc"] = X.ploc(v->getLocation());
     g["file"] = X.realfile(v->getLocation());
